@@ -1,6 +1,8 @@
 package verifsim
 
 import (
+	"github.com/sanonone/kektordb/pkg/verifsync"
+	"os"
 	"github.com/sanonone/kektordb/pkg/core/hnsw"
 	"fmt"
 	"path/filepath"
@@ -277,6 +279,7 @@ func runC12(w *World, tr *Trace) {
 	stop := startWatchdog(120*time.Second, "C12 run")
 	p, stack := bubble(w.T, func() {
 		w.Start = time.Now()
+		verifsync.DebugDraws = os.Getenv("KDSIM_DUMP") == "2"
 		w.installSim(spec)
 		defer w.removeSim()
 		w.installDiskHook()
@@ -323,6 +326,11 @@ func runC12(w *World, tr *Trace) {
 		scheduledPhase = true
 		sres = w.runScheduled(spec, tasks, advProb)
 		scheduledPhase = false
+		if os.Getenv("KDSIM_DUMP") == "2" {
+			for i, l := range sres.Trace {
+				fmt.Fprintln(os.Stderr, "SCHED", i, l)
+			}
+		}
 		if sres.Stall != "" {
 			w.Fail("no_stall", "stall", sres.Stall, -1)
 			return
@@ -366,6 +374,15 @@ func runC12(w *World, tr *Trace) {
 			}
 			settle()
 			check(e3, "after crash at "+im.ev)
+			if w.Failed() && os.Getenv("KDSIM_DUMP") != "" {
+				fmt.Fprintln(os.Stderr, "C12 image", im.ev, "seq", im.seq, describeDir(im.dir))
+				if d := os.Getenv("KDSIM_KEEPIMG"); d != "" {
+					copyTree(im.dir, d)
+				}
+				for _, rc := range recs {
+					fmt.Fprintln(os.Stderr, "  rec", rc.op.String(), rc.inv, rc.ret, rc.err)
+				}
+			}
 			e3.Close()
 			settle()
 		}
